@@ -584,6 +584,9 @@ def check_C16(A, R, tier):
     # R16.8 (= R7.7): every not-yet-started dependant - also one that was already skipped as up to date - ends upstream-failed
     from rules_more import rule_upstream_failure_reclassifies
     rule_upstream_failure_reclassifies(A, R, "R16.8")
+    # R16.9 (= R3.1/R3.4): 'never for an Ephemeral whose inputs had changed' - a changed input-name list (or a missing own record)
+    # marks the job invalidated at startup on every path, so that it runs without being held to its old output
+    rule_startup_detectors(A, R, rename={"R3.1": "R16.9", "R3.4": "R16.9"})
     # R16.4: 'inputs unchanged' (the Validated tag under which the check is made) is only concluded through comparisons (= R3.3)
     rule_validation_verdict(A, R, "R16.4")
     # nowhere else
